@@ -1,9 +1,135 @@
-(* C02 — rendered versions are accepted by their own pattern and read back unchanged. (theorems added below as they are proved) *)
-From Coq Require Import List NArith ZArith.
-From BV Require Import Lib.PyStr Lib.Regex Lib.RegexParse Model.V2.
+(* C02 — rendered versions are accepted by their own pattern and read back unchanged.
+   Restatements only; the proofs are in Proofs/RegexFacts.v and Proofs/PatAstFacts.v. *)
+From Coq Require Import List Bool NArith ZArith Arith.
+From BV Require Import Lib.PyStr Lib.Decimal Lib.Types Lib.Regex Lib.RegexParse Model.V2 Gen.Tables
+  Model.PatAst Proofs.RegexFacts Proofs.PatAstFacts.
 Import ListNotations.
 
-Example C02_smoke :
-  compile_pattern_str [118;89;89;89;89;46;66;85;73;76;68]%N <> [].
-Proof. vm_compute. discriminate. Qed.
-Print Assumptions C02_smoke.
+(* ---- the matcher never looks past a character that every class of the regex rejects ---- *)
+Theorem C02_rems_local : forall fuel n0 n0' r c t,
+  no_atom_accepts r c = true -> no_anchor r = true ->
+  forall x, rems fuel n0 r (x ++ c :: t) = map (fun '(e, s) => (e, s ++ c :: t)) (rems fuel n0' r x).
+Proof. exact rems_local. Qed.
+Print Assumptions C02_rems_local.
+
+(* ---- nor past its maximal width ---- *)
+Theorem C02_rems_width : forall r w, no_anchor r = true -> maxw r = Some w ->
+  forall f n0 n0' rest x, (w <= length x)%nat ->
+    rems f n0 r (x ++ rest) = map (fun '(e, s) => (e, s ++ rest)) (rems f n0' r x).
+Proof. exact rems_width. Qed.
+Print Assumptions C02_rems_width.
+
+(* ---- round trip on the AST layer ---- *)
+Theorem C02_roundtrip_ast : forall v p tail f n0,
+  sep_ok v p tail -> (length (fmt v p ++ tail) <= f)%nat ->
+  first_match f n0 (comp p) (fmt v p ++ tail) = Some (envof v p, tail).
+Proof. exact roundtrip_ast. Qed.
+Print Assumptions C02_roundtrip_ast.
+
+(* ---- numeric parts, over the generated PART_PATTERNS ---- *)
+Theorem C02_numeric_parts_regex : forall n,
+  (In n [P_MAJOR; P_MINOR; P_PATCH; P_BUILD; P_NUM; P_INC0] ->
+     part_regex n = Some (Cat (plus_re digit_re) Eps)) /\
+  (In n [P_BLD; P_INC1] ->
+     part_regex n = Some (Cat (Cls false [(49, 57)]%N) (Cat (Star digit_re) Eps))).
+Proof. exact numeric_parts_regex. Qed.
+Print Assumptions C02_numeric_parts_regex.
+
+Theorem C02_numeric_part_sep : forall name n rest f n0,
+  In name [P_MAJOR; P_MINOR; P_PATCH; P_BUILD; P_NUM; P_INC0] \/ (In name [P_BLD; P_INC1] /\ n <> 0%N) ->
+  nodigit_head rest = true -> (length (dec n ++ rest) <= f)%nat ->
+  first_match f n0 (pre name) (dec n ++ rest) = Some ([], rest).
+Proof. exact numeric_part_sep. Qed.
+Print Assumptions C02_numeric_part_sep.
+
+Theorem C02_numeric0_part_sep_str : forall name ds rest f n0,
+  In name [P_MAJOR; P_MINOR; P_PATCH; P_BUILD; P_NUM; P_INC0] ->
+  all_digits ds = true -> ds <> [] -> nodigit_head rest = true ->
+  (length (ds ++ rest) <= f)%nat ->
+  first_match f n0 (pre name) (ds ++ rest) = Some ([], rest).
+Proof. exact numeric0_part_sep_str. Qed.
+Print Assumptions C02_numeric0_part_sep_str.
+
+(* ---- finite parts, over the generated PART_PATTERNS and PART_FORMATS ---- *)
+Theorem C02_finite_parts_fullmatch :
+  forallb (fun '(name, texts) =>
+             forallb (fun t => match re_match (pre name) t with Some ([], []) => true | _ => false end) texts)
+          fin_domain = true.
+Proof. exact finite_parts_fullmatch. Qed.
+Print Assumptions C02_finite_parts_fullmatch.
+
+Theorem C02_finite_parts_sep : forall name texts t rest f n0,
+  In (name, texts) fin_domain -> In t texts ->
+  head_rejected_by (pre name) rest = true ->
+  (length (t ++ rest) <= f)%nat ->
+  first_match f n0 (pre name) (t ++ rest) = Some ([], rest).
+Proof. exact finite_parts_sep. Qed.
+Print Assumptions C02_finite_parts_sep.
+
+Theorem C02_fixed_parts_sep : forall name texts t rest f n0,
+  In (name, texts) fin_domain -> In t texts -> mem_str name fixed_parts = true ->
+  (length (t ++ rest) <= f)%nat ->
+  first_match f n0 (pre name) (t ++ rest) = Some ([], rest).
+Proof. exact fixed_parts_sep. Qed.
+Print Assumptions C02_fixed_parts_sep.
+
+Theorem C02_cal_part_sep : forall v name fld lo cnt z rest,
+  In (name, lo, cnt) fin_cal_spec ->
+  part_field name = Some fld -> get_field v fld = Some (Some (FInt z)) ->
+  (lo <= z < lo + Z.of_N cnt)%Z ->
+  head_rejected_by (pre name) rest = true \/ mem_str name fixed_parts = true ->
+  part_sep_ok v name rest.
+Proof. exact cal_part_sep. Qed.
+Print Assumptions C02_cal_part_sep.
+
+(* ---- known finding: week 53 of %W / %U is rendered but not recognised ---- *)
+Theorem C02_week53_refuted : forall name, In name [P_WW; P_0W; P_UU; P_0U] ->
+  fmtpart name 53 = dec 53 /\ forall e, re_match (pre name) (dec 53) <> Some (e, []).
+Proof. exact week53_refuted. Qed.
+Print Assumptions C02_week53_refuted.
+
+(* boundary of the two-digit year parts: a year ending in 00 renders as "0", which YY / GG reject *)
+Theorem C02_yy_century_refuted : forall name, In name [P_YY; P_GG] ->
+  fmtpart name 2000 = dec 0 /\ re_match (pre name) (dec 0) = None.
+Proof. exact yy_century_refuted. Qed.
+Print Assumptions C02_yy_century_refuted.
+
+(* ---- instances of the round trip: the premises are satisfiable ---- *)
+Theorem C02_roundtrip_semver : forall v,
+  (0 <= v_major v)%Z -> (0 <= v_minor v)%Z -> (0 <= v_patch v)%Z ->
+  let p := PLit [118]%N (PPart P_MAJOR (PLit [46]%N (PPart P_MINOR
+             (POpt (PLit [46]%N (PPart P_PATCH PNil)) PNil)))) in
+  re_match (comp p) (fmt v p) = Some (envof v p, []).
+Proof. exact roundtrip_semver. Qed.
+Print Assumptions C02_roundtrip_semver.
+
+Theorem C02_roundtrip_calver : forall v y m,
+  v_year_y v = Some y -> (1000 <= y <= 9999)%Z ->
+  v_month v = Some m -> (1 <= m <= 12)%Z ->
+  all_digits (v_bid v) = true -> v_bid v <> [] ->
+  In (v_tag v) tag_texts ->
+  let p := PLit [118]%N (PPart P_YYYY (PPart P_0M (PLit [46]%N (PPart P_BUILD
+             (POpt (PLit [45]%N (PPart P_TAG PNil)) PNil))))) in
+  re_match (comp p) (fmt v p) = Some (envof v p, []).
+Proof. exact roundtrip_calver. Qed.
+Print Assumptions C02_roundtrip_calver.
+
+(* ---- string layer (Model/V2.v): the same pattern as text, compiled the way bumpver does ---- *)
+Example C02_string_layer_instance :
+  let ptxt := [118;89;89;89;89;48;77;46;66;85;73;76;68;91;45;84;65;71;93]%N in  (* vYYYY0M.BUILD[-TAG] *)
+  let vtxt := [118;50;48;50;52;48;49;46;49;48;48;49;45;98;101;116;97]%N in      (* v202401.1001-beta *)
+  let p := PLit [118]%N (PPart P_YYYY (PPart P_0M (PLit [46]%N (PPart P_BUILD
+             (POpt (PLit [45]%N (PPart P_TAG PNil)) PNil))))) in
+  print p = ptxt
+  /\ parse_re (compile_pattern_str ptxt) <> None
+  /\ match compile_pattern_re ptxt with
+     | Some r => re_match r vtxt = re_match (comp p) vtxt
+                 /\ re_fullmatch_first r vtxt =
+                    Some [ ([121;101;97;114;95;121], [50;48;50;52]);      (* year_y = 2024 *)
+                           ([109;111;110;116;104], [48;49]);              (* month = 01 *)
+                           ([98;105;100], [49;48;48;49]);                 (* bid = 1001 *)
+                           ([116;97;103], [98;101;116;97]) ]%N            (* tag = beta *)
+     | None => False
+     end.
+Proof. vm_compute. repeat split. discriminate. Qed.
+Print Assumptions C02_string_layer_instance.
